@@ -101,6 +101,11 @@ def cases(draw):
     c = {"cfg": cfg, "api": api}
     if api == "statements":
         c["requests"] = draw(st.lists(REQ, min_size=0, max_size=8))
+        if c["requests"] and draw(st.integers(0, 2)) == 0:
+            # the same request asked for twice (a multiset, not a set): an exact copy inserted anywhere
+            src = draw(st.sampled_from(c["requests"]))
+            c["requests"].insert(draw(st.integers(0, len(c["requests"]))), dict(src))
+            c["dup"] = True
     elif api == "accounts":
         c["dtacctup"] = draw(DTS.filter(lambda x: x is not None))
     elif api == "tax1099":
@@ -323,6 +328,8 @@ def _worker(job):
             labs.append(">=2 kinds and >=3 requests")
         if cfg["version"] >= 200 and not cfg["close"]:
             labs.append("refused combination v2 + unclosed")
+        if c.get("dup"):
+            labs.append("same request asked twice")
         s.case(c, nontrivial=(len(kinds) >= 2 and len(rq) >= 3) or markup or nonutc, labels=labs)
         for k, d in check_case(c):
             s.fail(k, c, d)
